@@ -250,6 +250,14 @@ func (c *FnCtx) callContract(st *State, in ssa.Instruction, cc *ssa.CallCommon, 
 		}
 		vars[n] = args[i]
 	}
+	if c.dynOn && !fc.Pure {
+		// A representation invariant assumed by this function also speaks about references that are
+		// not handed out yet. A callee that allocates such objects must promise the invariant itself;
+		// otherwise its new objects would inherit this function's entry assumption.
+		if callee := c.eng.funcs[name]; callee != nil && c.eng.allocsTracked(callee) && !c.eng.ensuresDynInvariant(fc) {
+			panic(specErr{fmt.Sprintf("%s allocates objects covered by a representation invariant this function assumes, but its contract does not ensure that invariant", name)})
+		}
+	}
 	pre := st.clone()
 	env := &Env{c: c, st: st, old: pre, vars: vars, fvs: fvs}
 	// callee ghosts evaluated at call entry
